@@ -192,6 +192,7 @@ def getitem(it, obj, idx):
                 raise Raised('IndexError')
             return SRef(z3.Select(items, i), elem_type(obj.pytype))
         if bt == 'dict':
+            _dict_access(it, obj, 'read')
             k = key_val(it, idx)
             if not c.branch(z3.Select(c.hget(obj, '$has'), k), 'dict-has'):
                 raise Raised('KeyError')
@@ -261,6 +262,7 @@ def setitem(it, obj, idx, v):
             c.hset(obj, '$items', z3.Store(items, i, c.to_ref(v)))
             return
         if bt == 'dict':
+            _dict_access(it, obj, 'write')
             k = key_val(it, idx)
             c.hset(obj, '$has', z3.Store(c.hget(obj, '$has'), k, True))
             c.hset(obj, '$map', z3.Store(c.hget(obj, '$map'), k, c.to_ref(v)))
@@ -268,6 +270,12 @@ def setitem(it, obj, idx, v):
         if is_odict(it, obj):
             return od_setitem(it, obj, idx, v)
     raise Unsupported('subscript store on %r' % (obj,))
+
+
+def _dict_access(it, obj, how):
+    hook = it.w.hooks.get('dict_access')
+    if hook:
+        hook(it, obj, how)
 
 
 def key_val(it, k):
@@ -703,6 +711,13 @@ def call_builtin(it, b, args, kwargs, node):
             if base_type(v.pytype) == 'dict':
                 return SInt(c.hget(v, '$len'))
             if is_odict(it, v):
+                if v.pytype in getattr(it.w, 'guarded_registries', ()) and not it.where().endswith('__init__'):
+                    # the size of a registry that other threads extend is only meaningful inside the writers' critical
+                    # section (a number computed from it outside is stale by the time it is used)
+                    locks = c.pyghost.get('locks_seen', [])
+                    held = z3.Or([c.hget(l, 'held') > 0 for l in locks]) if locks else z3.BoolVal(False)
+                    c.prove('%s:guarded/registry-length-read-under-the-writers-lock' % it.where(), held,
+                            tags=('lock',), assume_after=False)
                 return SInt(c.hget(v, '$len'))
         raise Unsupported('len of %r' % (v,))
     if n in ('max', 'min'):
@@ -968,6 +983,7 @@ def call_builtin(it, b, args, kwargs, node):
         if meth == 'keys':
             return SRef(obj.e, 'dict_keys')
         if meth == 'get':
+            _dict_access(it, obj, 'read')
             k = key_val(it, args[0])
             if c.branch(z3.Select(c.hget(obj, '$has'), k), 'dict-get-has'):
                 return SRef(z3.Select(c.hget(obj, '$map'), k), elem_type(obj.pytype))
@@ -1081,7 +1097,22 @@ def str_call(it, meth, obj, args, kwargs):
     hook = it.w.hooks.get('str.' + meth)
     if hook:
         return hook(it, obj, args, kwargs)
+    if meth in ('endswith', 'startswith') and len(args) == 1 and isinstance(args[0], str):
+        if isinstance(obj, str):
+            return getattr(obj, meth)(args[0])
+        # an uninterpreted predicate of the text, with its value on the texts that are known literally (the
+        # built-in signal names among them)
+        c = it.c
+        pred = _str_preds.setdefault(meth, z3.Function('str_' + meth, StrV, StrV, z3.BoolSort()))
+        lit = c.strconst(args[0])
+        for k in list(it.w.signals) + list(getattr(it.w, '_strs', {})):
+            if isinstance(k, str):
+                c.assume(pred(c.strconst(k), lit) == z3.BoolVal(getattr(k, meth)(args[0])))
+        return SBool(pred(sval(c.to_ref(obj)), lit))
     raise Unsupported('str.%s' % meth)
+
+
+_str_preds = {}
 
 
 def seq_call(it, obj, meth, args, kwargs):
